@@ -82,6 +82,9 @@ func TestReplayDesign(t *testing.T) {
 			clients := map[string]*Actor{}
 			skipped := 0
 			release := func(a *Actor) bool {
+				if a != nil && w.stateOf(a) == "auth" {
+					w.ReleaseAuth(a)
+				}
 				if a != nil && w.stateOf(a) == "gate" {
 					w.Release(a)
 					return true
